@@ -12,7 +12,8 @@ I64MIN, I64MAX, U64MAX = -2**63, 2**63 - 1, 2**64 - 1
 I32MIN, I32MAX, U32MAX = -2**31, 2**31 - 1, 2**32 - 1
 
 # ---------------------------------------------------------------- known findings (sites/classes)
-# (five earlier findings - operator< / >, += / -= self-alias, QField::inv(r,r), Rational(0,d,0), Rational(double) negative
+S_CONSTS = ("Rational::zero / one / mOne (static constants)", "static library link order")
+# (six earlier findings - operator< / >, += / -= self-alias, QField::inv(r,r), Rational(0,d,0), Rational(double) negative
 #  subnormal - are repaired in /repo; their sites are judged like every other site now)
 
 
@@ -86,7 +87,7 @@ def gen_rat(rng, red, cov):
 def gen_pair(rng, red, cov):
     """second operand related to the first in the ways the shortcut branches distinguish"""
     x = gen_rat(rng, red, cov)
-    k = rng.below(12)
+    k = rng.below(17)
     fix = (lambda n, d: canon(n, d)) if red else (lambda n, d: (n, d) if n else (0, 1))
     if k == 0:
         rel, y = "same denominator", fix(gen_int(rng), x[1])
@@ -114,6 +115,26 @@ def gen_pair(rng, red, cov):
         rel, y = "y = 1/x", canon(x[1], x[0])
     elif k == 9:
         rel, y = "same numerator", fix(x[0], gen_den(rng))
+    elif k == 12:
+        rel, x = "x = +-1", (rng.choice([1, -1]), 1)
+        y = gen_rat(rng, red, {})
+        if rng.chance(1, 2) and y[0] > 0:
+            y = (-y[0], y[1])
+    elif k == 13:
+        rel, x, y = "both integers", (gen_int(rng, 2), 1), (gen_int(rng, 2), 1)
+    elif k == 14:
+        rel, y = "integer and non-integer", fix(gen_int(rng, 2) * 2 + 1, 2 * gen_den(rng, 1))
+        x = (gen_int(rng, 2), 1)
+    elif k == 15:
+        # sum / difference cancels down to an integer or to zero through the gcd branch
+        d = rng.choice([2, 3, 4, 6, 12, 2**32, 2**64 + 2])
+        a = rng.range(-40, 40)
+        rel, x, y = "x + y or x - y is an integer (gcd branch)", fix(a, d), fix(rng.choice([1, -1]) * a + d * rng.range(-3, 3), d)
+    elif k == 16:
+        # denominators d1*a, d1*b with gcd(t, d1) > 1
+        d1 = rng.choice([6, 10, 12, 30, 2**33, 210])
+        a, b = rng.choice([1, 5, 7, 11]), rng.choice([1, 13, 17, 19])
+        rel, x, y = "denominators share d1 and the cross sum shares a factor with d1", fix(rng.range(-50, 50) * 2 + 1, d1 * a), fix(rng.range(-50, 50) * 2 + 1, d1 * b)
     else:
         rel, y = "independent", gen_rat(rng, red, {})
     cov["rel: " + rel] = cov.get("rel: " + rel, 0) + 1
@@ -200,6 +221,8 @@ def build_cases(rng, tier, cov):
     for b in (0, 1):
         add("ctor.neutral", 1, [b], "mk_neutral", [b], "ratc", Fraction(b), nontrivial=False)
     add("ctor.default", 1, [], "mk_neutral", [0], "ratc", Fraction(0), nontrivial=False)
+    add("consts", 1, [], "consts", [], "raw", "0 1 1 1 -1 1 0 1 1 1 -1 1", S_CONSTS[0], S_CONSTS[1], nontrivial=False)
+    add("q.init0", 1, [], "pos", [7, 5], "ratc", Fraction(7, 5), nontrivial=False)
     for i in range(per):
         n32 = rng.choice([0, 1, -1, I32MIN, I32MAX, rng.range(I32MIN, I32MAX)])
         u32 = rng.choice([0, 1, U32MAX, rng.range(0, U32MAX)])
@@ -213,6 +236,9 @@ def build_cases(rng, tier, cov):
         add("ctor.Integer", 1, [z], "mk_int", [z], "ratc", Fraction(z))
         add("q.init.Integer", 1, [z], "mk_int", [z], "ratc", Fraction(z))
         add("q.init.int64", 1, [n64], "mk_word", [n64], "ratc", Fraction(n64))
+        add("q.init.int32", 1, [n32], "mk_word", [n32], "ratc", Fraction(n32))
+        add("q.init.uint32", 1, [u32], "mk_word", [u32], "ratc", Fraction(u32))
+        add("q.init.uint64", 1, [u64], "mk_word", [u64], "ratc", Fraction(u64))
         # pairs of machine words
         edges64 = [0, 1, -1, 2, -2, I64MIN, I64MAX, I64MIN + 1, 6, -6, 2**32, -2**32]
         pn = rng.choice(edges64) if rng.chance(1, 2) else rng.range(I64MIN, I64MAX)
@@ -248,7 +274,7 @@ def build_cases(rng, tier, cov):
         hasden = rng.chance(3, 4)
         dd = d if d else 5
         txt = ("%d%s%d" % (n, sep, dd)) if hasden else "%d" % n
-        for v in ("ctor.string", "io.read"):
+        for v in ("ctor.string", "io.read", "q.init.cstr"):
             add(v, 1, [txt], "of_text", [n, 1 if hasden else 0, dd], "ratc", Fraction(n, dd) if hasden else Fraction(n))
     # ---- doubles (both flag settings)
     for i in range(per * 6):
@@ -257,6 +283,18 @@ def build_cases(rng, tier, cov):
         red = 0 if i % 7 == 0 else 1
         for v in ("ctor.double", "q.init.double"):
             add(v, red, ["%016x" % bits], "of_double", [sgn, e, m], "rat", Fraction(x))
+    for i in range(per * 2):
+        k = rng.below(6)
+        fb = [rng.bits(32), rng.choice([0, 0x80000000, 1, 0x80000001, 0x007fffff, 0x807fffff, 0x00800000, 0x7f7fffff, 0xff7fffff, 0x3f800000, 0xbf800000]),
+              (rng.below(2) << 31) | rng.bits(23), (rng.below(2) << 31) | (rng.range(1, 254) << 23), (rng.below(2) << 31) | (rng.range(1, 254) << 23) | rng.bits(23),
+              (rng.below(2) << 31) | (rng.range(120, 135) << 23) | (rng.bits(5) << 18)][k]
+        if (fb >> 23) & 0xff == 0xff:
+            fb &= 0x807fffff | (0xfe << 23)   # keep it finite
+        f = struct.unpack("<f", struct.pack("<I", fb))[0]
+        bits = struct.unpack("<Q", struct.pack("<d", f))[0]
+        sgn, e, m = bits >> 63, (bits >> 52) & 0x7ff, bits & ((1 << 52) - 1)
+        cov["float: " + ("subnormal/zero" if (fb >> 23) & 0xff == 0 else "normal")] = cov.get("float: " + ("subnormal/zero" if (fb >> 23) & 0xff == 0 else "normal"), 0) + 1
+        add("q.init.float", 0 if i % 7 == 0 else 1, ["%08x" % fb], "of_double", [sgn, e, m], "rat", Fraction(f))
     # ---- copies, unary operations, predicates, rounding
     for i in range(per):
         x = gen_rat(rng, 1, cov)
@@ -266,6 +304,16 @@ def build_cases(rng, tier, cov):
         u = (x[0] * 6, x[1] * 6) if rng.chance(1, 2) else (gen_int(rng), gen_den(rng))
         add("reduce", 1, flat(u), "reduce", flat(u), "ratc", fr(u))
         add("op-unary", 1, flat(x), "neg", flat(x), "ratc", -fx)
+        w = gen_rat(rng, 0, {})
+        add("op-unary", 0, flat(w), "neg", flat(w), "rat", -fr(w))
+        add("abs", 0, flat(w), "abs", flat(w), "rat", abs(fr(w)))
+        add("q.neg", 0, flat(w), "q_neg", flat(w), "rat", -fr(w))
+        if w[0] != 0:
+            add("q.inv", 0, flat(w), "q_inv", [0] + flat(w), "rat", 1 / fr(w))
+            add("q.inv.alias", 0, flat(w), "q_inv", [1] + flat(w), "rat", 1 / fr(w))
+        for v, val in (("floor", fr(w).numerator // fr(w).denominator), ("ceil", -((-fr(w).numerator) // fr(w).denominator)),
+                       ("trunc", trunc0(fr(w))), ("round", round_away(fr(w)))):
+            add(v, 0, flat(w), v, flat(w), "raw", str(val))
         add("abs", 1, flat(x), "abs", flat(x), "ratc", abs(fx))
         add("q.neg", 1, flat(x), "q_neg", flat(x), "ratc", -fx)
         add("q.neg.alias", 1, flat(x), "q_neg", flat(x), "ratc", -fx)
@@ -318,6 +366,7 @@ def build_cases(rng, tier, cov):
                 exp, kind = f(fx, fx), "rat"
             for v in ("op" + sym + "=.alias", "q." + QNAME[sym] + "in.alias"):
                 add(v, red, flat(x), mop + "in", [1] + flat(x), kind, exp)
+            add("q." + QNAME[sym] + ".alias_rab", red, flat(x), mop, flat(x, x), kind, exp)
         # machine int on one side
         k = rng.choice([0, 1, -1, 2, I32MIN, I32MAX, rng.range(-100, 100), rng.range(I32MIN, I32MAX)])
         fk = Fraction(k)
@@ -331,6 +380,9 @@ def build_cases(rng, tier, cov):
         x, y = gen_pair(rng, 1, cov)
         fx, fy = fr(x), fr(y)
         add("cmpall", 1, flat(x, y), "cmpall", flat(x, y), "cmp", (sg(fx - fy), sg(abs(fx) - abs(fy))))
+        if i % 3 == 0:   # operands that are not reduced (NoReduce mode): the order must still be that of Q
+            u, w = gen_pair(rng, 0, {})
+            add("cmpall", 0, flat(u, w), "cmpall", flat(u, w), "cmp", (sg(fr(u) - fr(w)), sg(abs(fr(u)) - abs(fr(w)))))
         add("q.preds", 1, flat(x, y), "q_preds", flat(x, y), "raw", "%d %d %d %d" % (fx == 0, fx == 1, fx == -1, fx == fy), nontrivial=False)
     # ---- three-operand wrappers
     for i in range(per * 2):
